@@ -736,7 +736,7 @@ def run(tier, seed):
     ck.cover(witnesses_reached=sorted(sum(WITNESSES.values(), [])))
 
     # 2. conformance: real histories -> Trace_LlcpAddr
-    n = 120 if quick else 800
+    n = 104 if quick else 800
     traces, meta = [], {}
     for i in range(n):
         klass = KLASSES[i % len(KLASSES)]
